@@ -122,27 +122,29 @@ def confirm(out, k, wt):
     return res
 
 
-def run(patch, ids):
-    rc, o = sh("git status --porcelain", cwd="/repo")
-    if o.strip():
-        return dict(error="/repo is not clean: " + o[:300])
-    rc, o = sh(["git", "apply", patch], cwd="/repo")
+def run(patch, ids, wt="/tmp/wt/seedrun"):
+    """Runs the quick checks against a scratch worktree of /repo with the patch applied
+    (VERIF_REPO), so /repo itself and anything running against it stay untouched."""
+    if not os.path.isdir(wt):
+        rc, o = sh(["git", "-C", "/repo", "worktree", "add", "-q", "--detach", wt, "HEAD"])
+        if rc != 0:
+            return dict(error="cannot create worktree: " + o[-300:])
+    sh("git checkout -q --detach $(git -C /repo rev-parse HEAD) && git checkout -- . && git clean -fdq", cwd=wt)
+    rc, o = sh(["git", "apply", patch], cwd=wt)
     if rc != 0:
-        return dict(error="patch does not apply to /repo: " + o[-300:])
+        return dict(error="patch does not apply: " + o[-300:])
     out = {}
+    env = dict(os.environ, VERIF_REPO=wt)
     try:
         for pid in ids:
             t0 = time.time()
-            rc, o = sh([os.path.join(VERIF, "check"), pid, "quick"], cwd=VERIF, timeout=3600)
+            p = subprocess.run([os.path.join(VERIF, "check"), pid, "quick"], cwd=VERIF, env=env, stdout=subprocess.PIPE, stderr=subprocess.STDOUT, text=True, timeout=3600)
+            o = p.stdout
             detail = [l for l in o.splitlines() if l.startswith("VIOLATION-DETAIL")]
             incon = [l for l in o.splitlines() if l.startswith("INCONCLUSIVE")]
-            out[pid] = dict(rc=rc, s=round(time.time() - t0), detail=(detail[0][:400] if detail else (incon[0][:300] if incon else "")))
+            out[pid] = dict(rc=p.returncode, s=round(time.time() - t0), detail=(detail[0][:400] if detail else (incon[0][:300] if incon else "")))
     finally:
-        sh(["git", "apply", "-R", patch], cwd="/repo")
-        sh("git checkout -- .", cwd="/repo")
-    rc, o = sh("git status --porcelain", cwd="/repo")
-    if o.strip():
-        out["_warning"] = "/repo not clean after undo: " + o[:200]
+        sh("git checkout -- . && git clean -fdq", cwd=wt)
     return out
 
 
